@@ -58,9 +58,12 @@ class Drift(Exception):
 # --------------------------------------------------------------------------- state
 
 class Obligation(object):
-    __slots__ = ("name", "kind", "pc", "goal", "status", "time", "backend", "model", "where", "extra")
+    __slots__ = ("name", "kind", "pc", "goal", "status", "time", "backend", "model", "where", "extra", "known",
+                 "observe")
 
-    def __init__(self, name, kind, pc, goal, where=""):
+    def __init__(self, name, kind, pc, goal, where="", known=None):
+        self.known = known or []      # [(finding id, z3 condition describing the known failing class)]
+        self.observe = {}
         self.name = name
         self.kind = kind
         self.pc = pc
@@ -94,6 +97,13 @@ class State(object):
         self.decisions_checked = 0
         self.syms = {}                # name -> Sym leaf (for models / replay)
         self.nonzero_divs = []
+        self.observables = {}         # name -> z3 term, evaluated in counter-models
+
+    def observe(self, name, v):
+        if isinstance(v, (SymInt, SymBool, SymReal)):
+            self.observables[name] = v.e
+        elif z3.is_expr(v):
+            self.observables[name] = v
 
     # -- path condition
     def add_fact(self, e):
@@ -111,6 +121,11 @@ class State(object):
             self.add_fact(v)
         elif not v:
             raise PathEnd("assumption false")
+
+    def prune(self):
+        """end the path if its condition is unsatisfiable"""
+        if self.pos >= len(self.trace) and self.solver.check() == z3.unsat:
+            raise PathEnd("infeasible")
 
     def note_division(self, d):
         self.nonzero_divs.append(d)
@@ -159,15 +174,19 @@ class State(object):
         return d
 
     # -- obligations
-    def check(self, name, goal, kind="ensures", where=""):
+    def check(self, name, goal, kind="ensures", where="", known=None):
         """record `pc => goal`; afterwards goal is assumed on the path"""
+        if known:
+            known = [(kid, (c.e if isinstance(c, SymBool) else (c if z3.is_expr(c) else z3.BoolVal(bool(c)))))
+                     for (kid, c) in known]
         if isinstance(goal, SymBool):
             g = goal.e
         elif z3.is_expr(goal):
             g = goal
         else:
             g = z3.BoolVal(bool(goal))
-        ob = Obligation(name, kind, list(self.pc), g, where)
+        ob = Obligation(name, kind, list(self.pc), g, where, known)
+        ob.observe = dict(self.observables)
         self.obligations.append(ob)
         if not z3.is_true(z3.simplify(g)):
             self.add_fact(g)
@@ -304,6 +323,10 @@ class ClassVal(object):
 
 
 class FuncVal(object):
+    # internals live in slots so that functools.wraps (which copies __dict__) cannot clone them
+    __slots__ = ("node", "genv", "cenv", "qualname", "module", "defaults", "kwdefaults", "is_generator",
+                 "__dict__")
+
     def __init__(self, node, genv, cenv, qualname, module, defaults, kwdefaults):
         self.node = node
         self.genv = genv
@@ -1271,6 +1294,7 @@ class Interp(object):
             st.assume(0 <= k)
             st.assume(k < n)
             self._assume_inv(spec, env, k, st)
+            st.prune()
             self.assign(s.target, item(k), env, func)
             if spec.on_iter is not None:
                 spec.on_iter(env, k, st)
@@ -1285,6 +1309,7 @@ class Interp(object):
         else:
             self._havoc(hspec, env, st)
             self._assume_inv(spec, env, n, st)
+            st.prune()
             yield from self.exec_block(s.orelse, env, qual, func)
 
     def exec_while(self, s, env, qual, func):
@@ -1759,6 +1784,11 @@ def explore(run, max_paths=4000):
             results.append(PathResult(st, "drift", str(e)))
         finally:
             sym.set_state(None)
+        if os.environ.get("PYVC_DEBUG"):
+            r = results[-1]
+            sys.stderr.write("path %d: %s %s decisions=%d checked=%d obligations=%d queue=%d\n" % (
+                len(results), r.outcome, r.detail or "", len(st.taken), st.decisions_checked,
+                len(st.obligations), len(worklist)))
         if len(results) > max_paths:
             results.append(PathResult(st, "unsupported", "path limit %d exceeded" % max_paths))
             break
